@@ -103,6 +103,9 @@ def eval_migration(f, path, records, target_empty=True):
                 pass
 
     def oracle(kind, name, payload, site):
+        if kind in ("cmp", "eq") and str(name).startswith("name:") and str(payload).startswith("name:"):
+            a, b2 = str(name), str(payload)
+            return (a == b2) if kind == "eq" else ((a > b2) - (a < b2))
         if kind == "cmp":
             a, b2 = str(name), str(payload)
             ma, mb = _re.fullmatch(r"ts(\d+)", a), _re.fullmatch(r"ts(\d+)", b2)
@@ -114,6 +117,13 @@ def eval_migration(f, path, records, target_empty=True):
             return None
         t, args, it = payload
         names = [it.tokname(a) for a in args]
+        # every table of the current format exists when the migrations run (the store creates them at open, possibly in an
+        # earlier, interrupted open): a derived table that has to be rebuilt is one that is *empty*, not one that is absent
+        if name == "list_tables":
+            return E.Ok(coll.seq("iter", [E.Tok("handle:" + r) for r in sorted(set(ROLE.values()))]))
+        if name == "name" and names:
+            n0 = names[0].strip("&*")
+            return E.Tok("name:" + (n0[7:] if n0.startswith("handle:") else ROLE.get(n0, n0)))
         if name == "open_table":
             tn = names[1] if len(names) > 1 else "?"
             return E.Ok(E.Tok("table:" + ROLE.get(tn, tn.split("::")[-1])))
